@@ -1,8 +1,100 @@
 import CnlDriver.CS
-/-! `C19` driver table (stub). -/
-namespace Cnl.Drv
-open Cnl
+import CnlModel.Sqrt
+import CnlSpec.Sqrt
+/-!
+`C19` driver table: `cnl::sqrt` on built-in integers, elastic_integer, wide_integer and
+scaled_integer over any of these.
 
-def checkC19 (_toks : List String) (_res : String) : Option Verdict := none
+    C19 sqrt <type> <x> => <result type>:<r> | UB | UNREACHABLE | TIMEOUT
+    C19 sweep32 <i32|u32> <count> <fails> <checksum> => ok       (thorough in-harness exhaustive sweep, summary;
+                                                                  every input it rejects is also printed as an
+                                                                  ordinary `C19 sqrt` line)
+
+`<x>` and `<r>` are the innermost representation values, decimal, or `0x…` hexadecimal when the
+innermost type is a multi-word `wide_integer`.  The oracle (`CnlSpec.Sqrt`) is applied to the
+*implementation's* result and never looks at the model: floor-of-root inequality in ℤ for
+integers, additionally the digit bound for elastic_integer, and the inequality between the
+denoted rationals (core `Rat`) for scaled_integer.  Inputs outside the property's quantifier
+(negative values; representation values beyond an elastic/wide type's digits) get `spec = none`.
+-/
+namespace Cnl.Drv
+open Cnl Cnl.Sqrt Cnl.SqrtSpec
+
+def hexDigit (c : Char) : Option Nat :=
+  if '0' ≤ c ∧ c ≤ '9' then some (c.toNat - '0'.toNat)
+  else if 'a' ≤ c ∧ c ≤ 'f' then some (c.toNat - 'a'.toNat + 10)
+  else none
+
+def parseHexNat (cs : List Char) : Option Nat :=
+  if cs.isEmpty then none
+  else cs.foldl (fun acc c => do let a ← acc; let d ← hexDigit c; pure (a * 16 + d)) (some 0)
+
+/-- decimal, or `[-]0x…` hexadecimal -/
+def parseVal (s : String) : Option Int :=
+  match s.toList with
+  | '0' :: 'x' :: r => (parseHexNat r).map Int.ofNat
+  | '-' :: '0' :: 'x' :: r => (parseHexNat r).map (fun n => -Int.ofNat n)
+  | _ => s.toInt?
+
+def hexOfNat (n : Nat) : String := String.ofList (Nat.toDigits 16 n)
+def showHex (v : Int) : String := if v < 0 then "-0x" ++ hexOfNat v.natAbs else "0x" ++ hexOfNat v.natAbs
+
+/-- values of multi-word wide types are printed in hexadecimal -/
+def usesHex : Ty → Bool
+  | .wd D (.int N) => decide (D > (if N.signed then 127 else 128))
+  | .sc r _ _ => usesHex r
+  | _ => false
+
+def showNum19 (x : Num) : String :=
+  x.1.toString ++ ":" ++ (if usesHex x.1 then showHex x.2 else toString x.2)
+
+/-- is `x` a value of the type the property quantifies over (non-negative, within the digits)? -/
+def inProperty : Ty → Int → Bool
+  | .int T, x => decide (0 ≤ x ∧ x ≤ T.max)
+  | .el D (.int _), x => decide (0 ≤ x ∧ x < 2 ^ D)
+  | .wd D (.int _), x => decide (0 ≤ x ∧ x < 2 ^ D)
+  | .sc r _ _, x => inProperty r x
+  | _, _ => false
+
+/-- the property's demand on input `(t, x)` and the implementation's result `(rt, r)` -/
+def c19Oracle : Ty → Int → Ty → Int → Bool
+  | .int _, x, .int _, r => decide (IsFloorSqrt x r)
+  | .el D (.int _), x, .el D' (.int _), r => decide (IsFloorSqrt x r ∧ D' = (D + 1) / 2 ∧ FitsDigits D' r)
+  | .wd _ (.int _), x, .wd _ (.int _), r => decide (IsFloorSqrt x r)
+  | .sc rep e radix, x, .sc rep' e' radix', r =>
+    decide (radix = radix' ∧ IsScaledFloorSqrt x e radix r e') && c19Oracle rep x rep' r
+  | _, _, _, _ => false
+
+def parseNumRes (s : String) : Option Num :=
+  match s.splitOn ":" with
+  | [t, v] => do let t ← parseTy t; let v ← parseVal v; pure (t, v)
+  | _ => none
+
+def branchOf : Ty → String
+  | .int T => "int/" ++ T.toString
+  | .el _ _ => "el"
+  | .wd _ _ => "wd"
+  | .sc r _ _ => "sc/" ++ branchOf r
+  | _ => "other"
+
+def checkC19 (toks : List String) (res : String) : Option Verdict :=
+  match toks with
+  | ["sqrt", ty, x] => do
+    let t ← parseTy ty; let x ← parseVal x
+    let m := showRes showNum19 (sqrtNum t x)
+    let inP := inProperty t x
+    let spec : Option Bool :=
+      if inP then
+        match parseNumRes res with
+        | some (rt, r) => some (c19Oracle t x rt r)
+        | none => some false          -- UB / UNREACHABLE / TIMEOUT on an input the property covers
+      else none
+    some { model := m, spec := spec,
+           branch := branchOf t ++ (if inP then "" else if x < 0 then "/negative" else "/beyond-digits"),
+           nontrivial := inP && x ≥ 2 }
+  | ["sweep32", _, _, fails, _] =>
+    -- summary of the in-harness exhaustive search: the harness itself evaluated the inequality
+    some { model := "ok", spec := some (fails == "0"), branch := "sweep32", nontrivial := false }
+  | _ => none
 
 end Cnl.Drv
